@@ -187,6 +187,27 @@ def run(ctx):
     ctx.ob('C17.R1', 'rescale:length', ok,
            'Vector.rescale multiplies every component by new_length / length', va, rs)
 
+    # every heavy atom that is visited goes through the electron count: the only
+    # atoms protonate_atom leaves alone are those it has done already and the
+    # hydrogens themselves.  (A further shortcut - "carries a hydrogen already,
+    # leave it" - stops a partially protonated NH2 of --keep-protons input from
+    # being completed: ASN 1 of 2, ARG 4 of 5, and the warning.)
+    pa17 = pmod.func('Protonate.protonate_atom')
+    ap17 = params_of(pa17)[0]
+    steps = [c for c in calls_in(pa17, nested=False) if last_attr(c) in (
+        'set_number_of_protons_to_add', 'set_steric_number_and_lone_pairs', 'add_protons')]
+    allowed17 = {ap17 + '.is_protonated', "%s.element == 'H'" % ap17}
+    extra17 = []
+    for c in steps:
+        for e, pol in facts_at(c, pa17):
+            t = norm(e)
+            if not ((not pol and t in allowed17) or (pol and t == "%s.element != 'H'" % ap17)):
+                extra17.append(('' if pol else 'not ') + t)
+    ctx.ob('C17.R3', 'protonate_atom:count-for-every-unvisited-heavy-atom',
+           len(steps) == 3 and not extra17,
+           'protonate_atom runs the count and the construction for every atom that is not marked '
+           'protonated and is not a hydrogen (further conditions: %s)' % sorted(set(extra17)),
+           pmod, steps[0] if steps else pa17)
     # a direction obtained by adding up unit vectors to the neighbours is tested
     # for cancellation before it is used: for a linear two-neighbour centre or a
     # symmetric planar three-neighbour centre the sum is zero or rounding noise,
